@@ -112,6 +112,9 @@ def build_harness(race=False):
         # statement coverage of the library by the correspondence streams (tools/coverage.sh)
         flags += "-cover -coverpkg=github.com/jawher/mow.cli/...,./... "
     sh("cp %s/go.sum go.sum && go build -tags verif %s-o %s ." % (REPO, flags, out), cwd=HARNESS, env=GOENV)
+    if not race:
+        # a program that uses the library without the hooks (the real os.Stderr, os.Stdout, os.Exit)
+        sh("go build -o plainprog ./plain", cwd=HARNESS, env=GOENV)
     return os.path.join(HARNESS, out)
 
 
